@@ -73,6 +73,8 @@ def main():
     old = open(path).read() if os.path.exists(path) else None
     if old != text:
         open(path, "w").write(text)
+    import gen_decisions
+    gen_decisions.write(d.get("decisions") or [])
     return d
 
 
